@@ -257,8 +257,16 @@ def reuse_case(draw):
     constants / another block altogether); the values returned for B must satisfy B."""
     a = draw(blocks.system(n_sim=(1, 5), q_hi=70, lags=(0, 2), exos=(0, 1), consts=(0, 1), aliases=(0, 1), leaves=(0, 2),
                            horizon=(1, 4), ic_prob=10, nonlinear=draw(st.booleans()), tols=('1e-6', '1e-8')))
-    mode = draw(st.sampled_from(['sweep', 'sweep', 'other']))
-    if mode == 'sweep':
+    mode = draw(st.sampled_from(['sweep', 'sweep', 'other', 'two-solvers']))
+    if mode == 'two-solvers':
+        # two solver objects alive at the same time, each registering its OWN function under the same name; the one
+        # set up first is solved last
+        a = draw(blocks.system(n_sim=(1, 4), q_hi=70, lags=(0, 2), exos=(0, 1), consts=(0, 1), leaves=(0, 1),
+                               horizon=(1, 4), nonlinear=True, tols=('1e-6', '1e-8')))
+        b = draw(blocks.system(n_sim=(1, 3), q_hi=70, lags=(0, 1), exos=(0, 1), consts=(0, 1), horizon=(1, 3),
+                               nonlinear=True, tols=('1e-6',)))
+        a['fscale'], b['fscale'] = draw(st.sampled_from([(50, -30), (25, 50), (-40, 10), (50, 5)]))
+    elif mode == 'sweep':
         import copy as _copy
         b = _copy.deepcopy(a)
         for e in b['eqs']:
@@ -270,8 +278,38 @@ def reuse_case(draw):
     return {'a': a, 'b': b, 'mode': mode, 'reduction': draw(st.booleans())}
 
 
+def run_two_solvers(spec):
+    from sfc_models.equation_solver import EquationSolver
+    solvers = {}
+    for which in ('a', 'b'):
+        es = EquationSolver(run_equation_reduction=spec['reduction'])
+        for fn, f in blocks.user_funcs(spec[which]).items():
+            es.AddFunction(fn, f)
+        es.ParseString(blocks.render(spec[which]))
+        solvers[which] = es
+    outcomes = []
+    for which in ('b', 'a'):
+        try:
+            solvers[which].SolveEquation()
+            outcomes.append('ok')
+        except Exception as ex:
+            outcomes.append(type(ex).__name__)
+            if not isinstance(ex, (ValueError, ArithmeticError)):
+                raise Violation('C02/reuse-unexpected-exception', 'block %s (two solvers alive) raised %s: %s' %
+                                (which, type(ex).__name__, ex))
+    uses = any('f_half' in e[1] for e in spec['a']['eqs'])
+    if outcomes[1] == 'ok':
+        a = dict(spec['a'])
+        a['tol_param'] = None
+        check_returned(a, solvers['a'], spec['reduction'], bucket_prefix='C02/two-solvers')
+    return {'nontrivial': outcomes == ['ok', 'ok'] and uses,
+            'labels': ['mode:two-solvers', 'outcomes:' + '/'.join(outcomes)] + (['own-function-used'] if uses else [])}
+
+
 def run_reuse(spec):
     from sfc_models.equation_solver import EquationSolver
+    if spec['mode'] == 'two-solvers':
+        return run_two_solvers(spec)
     es = EquationSolver(run_equation_reduction=spec['reduction'])
     for fn, f in blocks.USER_FUNCS.items():
         es.AddFunction(fn, f)
